@@ -1,7 +1,7 @@
 """Theorems of lean/TLX/Props/ExportFaults.lean (+ ExportFaultsEx.lean): C03 for the whole program — bystanders (TLS and QUIC)
 unaffected by an arbitrary victim flow, no payload / key-log text / session can abort the run, the victim of a `cut-after`
 fault exports a prefix. To be required by c03."""
-MODULES = ["TLX.Props.ExportFaults", "TLX.Props.ExportFaultsEx", "TLX.Props.ExportFaults2"]
+MODULES = ["TLX.Lemmas.CarrierMap", "TLX.Props.ExportFaults", "TLX.Props.ExportFaultsEx", "TLX.Props.ExportFaults2"]
 _NS = "TLX.Props.ExportFaults."
 THEOREMS = [_NS + n for n in [
     "export_bystander_unaffected_quic", "export_bystander_unaffected_quic_file",
